@@ -111,31 +111,32 @@ func top(r *vf.Run) {
 		timeout time.Duration
 	}
 	var stages []st
-	nb := r.N(4, 8) // l1 batches
-	for i := 0; i < nb; i++ {
-		stages = append(stages, st{"l1", false, []string{fmt.Sprint(i), fmt.Sprint(nb)}, 12 * time.Minute})
-	}
-	stages = append(stages,
-		st{"l1gate", true, nil, 10 * time.Minute},
-		st{"hist", true, nil, 10 * time.Minute},
-		st{"l2gate", false, nil, 10 * time.Minute},
-		st{"l3", false, nil, 10 * time.Minute},
-	)
+	// long stages first
 	nb2 := r.N(2, 6)
 	for i := 0; i < nb2; i++ {
 		stages = append(stages, st{"l2", true, []string{fmt.Sprint(i), fmt.Sprint(nb2)}, 14 * time.Minute})
 	}
+	stages = append(stages, st{"hist", true, nil, 14 * time.Minute})
+	nb := r.N(4, 8) // l1 batches
+	for i := 0; i < nb; i++ {
+		stages = append(stages, st{"l1", false, []string{fmt.Sprint(i), fmt.Sprint(nb)}, 14 * time.Minute})
+	}
+	stages = append(stages,
+		st{"l1gate", true, nil, 10 * time.Minute},
+		st{"l2gate", false, nil, 10 * time.Minute},
+		st{"l3", false, nil, 10 * time.Minute},
+	)
 	only := os.Getenv("C01_ONLY") // development aid: run a single stage
 	var wg sync.WaitGroup
-	sem := make(chan struct{}, 6)
+	sem := make(chan struct{}, 7)
 	for _, s := range stages {
 		if only != "" && only != s.name {
 			continue
 		}
 		wg.Add(1)
+		sem <- struct{}{} // acquired here so that the stages start in list order
 		go func(s st) {
 			defer wg.Done()
-			sem <- struct{}{}
 			defer func() { <-sem }()
 			t0 := time.Now()
 			jpath := fmt.Sprintf("%s/journal-%s-%s", r.Scratch, s.name, strings.Join(s.args, "-"))
@@ -294,6 +295,10 @@ func buildBlobMode(r *vf.Run, idx int, compression string, gate bool) (*blobCase
 		if gate {
 			bo.ChunkSize = rng.Pick(64, 512, 4096)
 			bo.MinChunkSize = 0
+		} else if idx%4 == 3 {
+			// every fourth blob: several chunks share one compressed stream (pre-reader paths)
+			bo.ChunkSize = rng.Pick(64, 512, 4096)
+			bo.MinChunkSize = bo.ChunkSize * rng.Pick(2, 3, 8)
 		}
 		o := gen.DefaultOpts(int64(bo.ChunkSize))
 		o.RootEntry = false  // db store + "./" entry: Cache() fails (suspected C05 defect), would silence prefetch
@@ -439,6 +444,20 @@ func (bc *blobCase) readPlan(a *alteration, rng *prng.R, nRandom int) []readOp {
 			if c.chunkOffset > 0 {
 				plan = append(plan, readOp{p, c.chunkOffset - 1, int(min64(size-c.chunkOffset+1, c.chunkSize+1))})
 			}
+			// chunks that share the compressed stream with c (min-chunk-size): reading one of
+			// them makes the pre-reader of OpenFile handle (verify + cache) c; then read c again
+			nsib := 0
+			for _, sib := range bc.siblings(c) {
+				q := gen.Clean(sib.name)
+				if n := bc.fsm.Nodes[q]; n == nil || n.Size == 0 || nsib >= 2 {
+					continue
+				}
+				nsib++
+				plan = append(plan, readOp{q, sib.chunkOffset, int(sib.chunkSize)})
+			}
+			if nsib > 0 {
+				plan = append(plan, readOp{p, c.chunkOffset, int(c.chunkSize)})
+			}
 		}
 	}
 	for i := 0; i < nRandom && len(bc.files) > 0; i++ {
@@ -456,6 +475,25 @@ func (bc *blobCase) readPlan(a *alteration, rng *prng.R, nRandom int) []readOp {
 		plan = append(plan, readOp{p, off, int(l)})
 	}
 	return plan
+}
+
+// siblings returns the other chunks stored in the same compressed member as c.
+func (bc *blobCase) siblings(c chunkRef) []chunkRef {
+	for _, i := range bc.lay.data {
+		m := bc.lay.members[i]
+		for _, x := range m.chunks {
+			if x.name == c.name && x.chunkOffset == c.chunkOffset {
+				var res []chunkRef
+				for _, y := range m.chunks {
+					if !(y.name == c.name && y.chunkOffset == c.chunkOffset) {
+						res = append(res, y)
+					}
+				}
+				return res
+			}
+		}
+	}
+	return nil
 }
 
 func min64(a, b int64) int64 {
